@@ -4,3 +4,4 @@ import BB.Props.Tables
 import BB.Props.C01
 import BB.Props.C07
 import BB.Props.C03
+import BB.ProofsEnc16
